@@ -142,6 +142,7 @@ type ConnOpts struct {
 	CtxValue    any  // value an "interceptor" stores in the server context
 	StripReqNegotiate  bool // emulate a legacy network client: remove the negotiate key from the request metadata
 	StripRespNegotiate bool // emulate a legacy network server: remove the negotiate key from the response headers
+	InterceptMD map[string][]string // outgoing metadata a client stream interceptor adds to every call made through this connection
 	Auto     bool // deliver immediately
 	Capacity int  // max undelivered+unreceived messages per direction; 0 = unbounded
 }
@@ -257,9 +258,20 @@ func (c *Conn) NewStream(ctx context.Context, desc *grpc.StreamDesc, method stri
 		return nil, status.FromContextError(err).Err()
 	}
 	s := &Stream{net: n, Method: method, opts: copts, auto: copts.Auto}
-	s.cctx, s.ccancel = context.WithCancel(ctx)
 	md, _ := metadata.FromOutgoingContext(ctx)
 	md = md.Copy()
+	if len(copts.InterceptMD) > 0 {
+		// what a grpc.StreamClientInterceptor does: it calls the streamer with a context that carries more outgoing
+		// metadata; the metadata goes on the wire and ClientStream.Context() is that context
+		if md == nil {
+			md = metadata.MD{}
+		}
+		for k, v := range copts.InterceptMD {
+			md.Append(k, v...)
+		}
+		ctx = metadata.NewOutgoingContext(ctx, md.Copy())
+	}
+	s.cctx, s.ccancel = context.WithCancel(ctx)
 	if c.opts.StripReqNegotiate {
 		delete(md, "grpctunnel-negotiate")
 	}
